@@ -148,6 +148,34 @@ def random_schedule(rng, i):
     }
 
 
+def matrix_schedules(rng):
+    """Every fault kind at the first / second / third occasion of short transfers (2, 3, 5 blocks in each direction)
+    at small, medium and the largest block size: the faulted response is the first, a middle or the final one."""
+    out = []
+    for kind in FAULTS:
+        for nth in (0, 1, 2):
+            for blocks in (2, 3, 5):
+                for szx in (0, 3, 6):
+                    size = 2 ** (szx + 4)
+                    N = blocks * size - rng.choice([0, 1, size - 1])
+                    if szx == 6 and N <= 1124:
+                        N = 1125
+                    M = blocks * size - rng.choice([0, 1, size - 1])
+                    net = {}
+                    if rng.random() < 0.3:
+                        net[str(rng.randint(1, 2 * blocks))] = rng.choice(["dropreq", "dropresp", "dupresp", "dupreq"])
+                    out.append({
+                        "mid0": rng.randint(0, 65535), "tok0": rng.randint(0, 65535), "code": rng.choice([2, 3, 5]),
+                        "N": N, "C": szx if rng.random() < 0.7 else rng.randint(szx, 6),
+                        "reps": [{"len": M, "etag": True}, {"len": M + rng.choice([0, 1, size]), "etag": True}],
+                        "s1": [szx] if rng.random() < 0.7 else [szx, max(0, szx - 1)],
+                        "s2": [szx] if rng.random() < 0.7 else [szx, max(0, szx - 1)],
+                        "net": net, "fault": {"kind": kind, "nth": nth, "short": rng.choice([1, size // 2, size - 1])},
+                        "dedup": rng.random() < 0.7, "con": True,
+                    })
+    return out
+
+
 # ------------------------------------------------------------------ signatures
 def scenario(events):
     """normalised shape of a recorded transfer: misbehaviour kind (+ where), reduction, loss/duplication"""
@@ -260,8 +288,9 @@ def work(rep, args):
         model = [(s, e) for s, e in model if e and e[-1]["k"] == "end"]
         if len(model) < nsim // 2:
             raise MachineryError("only %d of %d simulated behaviours are complete transfers" % (len(model), nsim))
-        rand = [random_schedule(rng, i) for i in range(400 if quick else 8000)]
-        scheds = [s for s, _ in model] + rand
+        rand = [random_schedule(rng, i) for i in range(300 if quick else 8000)]
+        matrix = matrix_schedules(rng)
+        scheds = [s for s, _ in model] + rand + matrix
         lap("schedules")
         results = run_all(scheds)
         lap("real_executions")
@@ -321,7 +350,7 @@ def work(rep, args):
                 "phase_wall_s": phases,
                 "schedules_from_model_behaviours": len(model),
                 "model_behaviours_reproduced_exactly": len(model) - ndrift,
-                "random_schedules": len(rand),
+                "random_schedules": len(rand), "fault_matrix_schedules": len(matrix),
                 "scenario_kinds": kinds, "exercised": stats, "error_classes": errclasses,
                 "samples": [{"schedule": scheds[0], "events": [short(e) for e in results[0]["events"][:12]]},
                             {"schedule": scheds[-1], "events": [short(e) for e in results[-1]["events"][:12]]}],
